@@ -1081,7 +1081,7 @@ def gc_part(tier, seed, rep):
                     prefixes.append(enc(h2))
         front = nxt
     rnd = random.Random(seed)
-    jobs = [('line', thorough, (8, 4096))]
+    jobs = [('line', thorough, (8, 4096) if thorough else (8,))]
     if thorough:
         jobs.append(('instr', False, (8,)))
     for gran, double, nexts in jobs:
@@ -1111,7 +1111,7 @@ def gc_part(tier, seed, rep):
                  states=len(prefixes) if gran == 'line' else len(ps),
                  transitions=tot['executions'],
                  outcomes=outcomes.keys(), samples=[sample] if sample else [],
-                 prefix_depth=pdepth, operations=tot['ops'],
+                 prefix_depth=max(len(p) for p in ps), operations=tot['ops'],
                  injection_points=tot['points'], granularity=gran,
                  second_injection=double, next_mallocs=list(nexts))
 
